@@ -68,6 +68,8 @@ def walk(t):
         yield from walk(t[2])
     elif t[0] == 'ONOK':
         yield from walk(t[1])
+    elif t[0] == 'SINKW':
+        yield from walk(t[2])
 
 
 def has_opaque(t):
